@@ -527,6 +527,7 @@ type c20Stats struct {
 }
 
 type c20Problem struct {
+	at      int // index of the event at which the case failed (-1: the initial load)
 	sig     string
 	replay  map[string]any
 	noInput bool // disagreement only on bytes the property does not constrain
@@ -544,7 +545,7 @@ func c20RunHistoryCase(c *lib.Ctx, d c20Dir, cs c20Case, reply string, st *c20St
 		if i >= 0 {
 			evs = fmt.Sprintf("event %d: %s", i+1, cs.Events[i].show())
 		}
-		return &c20Problem{sig: fmt.Sprintf("%sop=%s step=%s aspect=%s", cell, kind, step, aspect),
+		return &c20Problem{at: i, sig: fmt.Sprintf("%sop=%s step=%s aspect=%s", cell, kind, step, aspect),
 			replay: map[string]any{"input": cs.show(), "request": req, "at": evs, "observed": observed, "expected": expected,
 				"expected_from": from, "relies_on": []string{"SlipVerif.History.restart_equals_memory", "SlipVerif.History.crash_consistent"}}}
 	}
@@ -1072,7 +1073,87 @@ func c20Replay(c *lib.Ctx) {
 	}
 }
 
+// c20Shrink: delta debugging on the events of a failing composite session: cut after the failing event,
+// then drop events one at a time as long as the same signature is reported.
+func c20Shrink(c *lib.Ctx, d c20Dir, cs c20Case, p *c20Problem) *c20Problem {
+	try := func(evs []c20Op) *c20Problem {
+		t := cs
+		t.Events = evs
+		reply := c.Model([]string{t.request()})[0]
+		q := c20RunHistoryCase(c, d, t, reply, &c20Stats{})
+		if q != nil && !q.noInput && q.sig == p.sig {
+			return q
+		}
+		return nil
+	}
+	best := p
+	evs := cs.Events
+	if p.at >= 0 && p.at+1 < len(evs) {
+		if q := try(evs[:p.at+1]); q != nil {
+			best, evs = q, evs[:p.at+1]
+		}
+	}
+	for i, tries := len(evs)-2, 0; i >= 0 && tries < 70; i, tries = i-1, tries+1 {
+		cand := append(append([]c20Op{}, evs[:i]...), evs[i+1:]...)
+		if q := try(cand); q != nil {
+			best, evs = q, cand
+		}
+	}
+	best.replay["shrunk_from_events"] = len(cs.Events)
+	if ex, _ := c.Ev.Coverage["shrunk_failing_sessions"].([]map[string]any); len(ex) < 4 {
+		c.Ev.Coverage["shrunk_failing_sessions"] = append(ex, map[string]any{"signature": best.sig, "input": best.replay["input"],
+			"events_before": len(cs.Events), "events_after": len(evs)})
+	}
+	return best
+}
+
+var c20Family = map[string]int{}
+
+type c20Pending struct {
+	p     *c20Problem
+	sweep bool
+	rank  int
+}
+
+var c20Buf []c20Pending
+
+// c20Report buffers a disagreement; c20Flush reports them so that every family of the property gets
+// replay files among the first 25 violations: history sweep cells, settings, stash, then composites.
 func c20Report(c *lib.Ctx, p *c20Problem, sweep bool) {
+	rank := 3
+	switch {
+	case strings.Contains(p.sig, "op=setq") || strings.Contains(p.sig, "config-bytes"):
+		rank = 1
+	case strings.Contains(p.sig, "stash"):
+		rank = 2
+	case strings.HasPrefix(p.sig, "cell="):
+		rank = 0
+	}
+	c20Buf = append(c20Buf, c20Pending{p, sweep, rank})
+}
+
+func c20Flush(c *lib.Ctx) {
+	for rank := 0; rank <= 3; rank++ {
+		for _, b := range c20Buf {
+			if b.rank == rank {
+				c20Emit(c, b.p, b.sweep)
+			}
+		}
+	}
+	c20Buf = nil
+}
+
+func c20Emit(c *lib.Ctx, p *c20Problem, sweep bool) {
+	// at most three replays per sweep family (cell=clear/…, cell=limit/…): the first 25 violations get
+	// replay files and one defect should not use them all up; the others are counted
+	if strings.HasPrefix(p.sig, "cell=") && !p.noInput && (!sweep || c.Findings.Match(c.Prop, p.sig) == nil) {
+		fam := p.sig[:strings.IndexAny(p.sig+"/", "/")]
+		c20Family[fam]++
+		if c20Family[fam] > 3 {
+			c.Ev.Count("violations_not_reported_same_sweep_family", 1)
+			return
+		}
+	}
 	if p.noInput {
 		for _, v := range c.Violations {
 			if v.Signature == "broken="+p.sig {
@@ -1117,7 +1198,7 @@ func runC20(c *lib.Ctx) {
 	}
 	cases := c20Sweep(c)
 	nSweep := len(cases)
-	nRandom := c.Scale(260, 1600)
+	nRandom := c.Scale(260, 3000)
 	for i := 0; i < nRandom; i++ {
 		cases = append(cases, c20Composite(c, c20Rng, free))
 	}
@@ -1127,6 +1208,7 @@ func runC20(c *lib.Ctx) {
 	}
 	replies := c.Model(reqs)
 	agree := 0
+	seen := map[string]bool{}
 	for i, cs := range cases {
 		_, exps := c20ParseReply(replies[i], len(cs.Events))
 		c.Ev.Case(reqs[i], c20Nontrivial(cs, exps))
@@ -1141,6 +1223,10 @@ func runC20(c *lib.Ctx) {
 		if p == nil {
 			agree++
 			continue
+		}
+		if cs.Cell == "" && !p.noInput && !seen[p.sig] && len(seen) < 8 {
+			seen[p.sig] = true
+			p = c20Shrink(c, d, cs, p)
 		}
 		c20Report(c, p, cs.Cell != "")
 	}
@@ -1161,6 +1247,7 @@ func runC20(c *lib.Ctx) {
 
 	nStash, nStashAgree := c20RunStash(c)
 	nCfg, nCfgAgree := c20RunCfg(c)
+	c20Flush(c)
 	c.Ev.Coverage["stash_cases"] = nStash
 	c.Ev.Coverage["stash_cases_in_agreement"] = nStashAgree
 	c.Ev.Coverage["settings_cases"] = nCfg
